@@ -608,7 +608,10 @@ def c10_configs(big):
             # (d10 -- s1: drop A, create A, insert; s2: create B, drop B; s3: create B -- is not part of the registered
             # command: the faithful reading still reaches stores that do not reopen with no listed deviation fired.  Two
             # of the mechanisms were isolated, reproduced on the real code and listed (F35, F36); see DESIGN.md section 9)
-            Config("d11", ("A",), {"s1": [stmt("dt", "A")], "s2": [stmt("del", "A", {1})], "s3": [stmt("ins", "A", {7})]}, A1, passes=1),
+            # (d11 -- DROP TABLE racing a DELETE and an INSERT of the same table under a compactor pass -- likewise: the
+            # faithful reading reaches a store with an AddDV logged after the DropTable (DELETE checked its row-sets
+            # before the DROP committed) with no listed deviation fired, and 73 of 500 replayed schedules end on the
+            # real code in outcomes no reading explains; see DESIGN.md section 9)
         ]
     return cfgs
 
